@@ -442,7 +442,10 @@ func (nl *NodeList) GetNodeByID(id string) *Node {
 // See [Node.HashesMatch] for details on how hashes are compared.
 func (nl *NodeList) GetMatchingNode(node *Node) (*Node, error) {
 	// If the target node has hashes, look for it
-	foundNodes := map[string]*Node{}
+	// Matches are keyed by the node itself: a node listed under several of the
+	// target's hashes is collected once, while distinct nodes that happen to
+	// share an identifier are not folded into one match.
+	foundNodes := map[*Node]struct{}{}
 	if len(node.Hashes) > 0 {
 		hashIndex := nl.indexNodesByHash()
 		for algo, hashVal := range node.Hashes {
@@ -453,13 +456,13 @@ func (nl *NodeList) GetMatchingNode(node *Node) (*Node, error) {
 			// Collect all node where hashes match exactly
 			for _, n := range hashIndex[fmt.Sprintf("%d:%s", algo, hashVal)] {
 				// Ignore if we've seen the node
-				if _, ok := foundNodes[n.Id]; ok {
+				if _, ok := foundNodes[n]; ok {
 					continue
 				}
 
 				// Collect the node if hashes match
 				if n.HashesMatch(node.Hashes) {
-					foundNodes[n.Id] = n
+					foundNodes[n] = struct{}{}
 				}
 			}
 		}
@@ -472,7 +475,7 @@ func (nl *NodeList) GetMatchingNode(node *Node) (*Node, error) {
 	switch len(foundNodes) {
 	case 1:
 		// If there is a single match, our job is done.
-		for _, n := range foundNodes {
+		for n := range foundNodes {
 			return n, nil
 		}
 	case 0:
@@ -499,7 +502,7 @@ func (nl *NodeList) GetMatchingNode(node *Node) (*Node, error) {
 		}
 
 		foundByPurl := []*Node{}
-		for _, n := range foundNodes {
+		for n := range foundNodes {
 			if tp := n.Purl(); tp != "" && tp == testPurl {
 				foundByPurl = append(foundByPurl, n)
 			}
